@@ -7,7 +7,7 @@ from .. import packaging
 from ..callgraph import Resolver, own_nodes, reachable
 from ..guard import closed_world
 from ..model import PKG, FuncInfo, Program, construct_key, dotted, norm, parent
-from ..ord import E, L, OrdUnknown, Scalar, Tup, Evaluator
+from ..ord import E, L, OrdDeviation, OrdUnknown, Scalar, Tup, Evaluator
 from ..report import Finding, Result
 from ..sgn import MAX, MIN
 
@@ -151,6 +151,13 @@ def run(prog: Program, res: Result) -> None:
                 "n_best": Scalar(norm(nb)) if nb is not None else Scalar("None"),
                 "n_worst": Scalar(norm(nw)) if nw is not None else Scalar("None")}
         got = ev.call_helper(sa, args)
+    except OrdDeviation as exc:
+        res.ob(False)
+        res.add(Finding(P, "C03.R2-best-is-first-of-asc", construct_key(prog, best_stmt, opt.module),
+                        f"{opt.module.relpath}:{best_stmt.lineno}",
+                        f"the ranking behind self._best_agent does not order agents by their cost: {exc}; an agent with a strictly "
+                        f"better cost can be ranked behind the one reported as best_solution"))
+        return
     except OrdUnknown as exc:
         res.errors.append(f"ORD cannot evaluate special_agents for optimize(): {exc}")
         return
